@@ -20,6 +20,10 @@
 #include "opentelemetry/sdk/trace/samplers/parent.h"
 #include "opentelemetry/sdk/trace/tracer.h"
 #include "opentelemetry/sdk/trace/tracer_context.h"
+#include "opentelemetry/context/context.h"
+#include "opentelemetry/context/runtime_context.h"
+#include "opentelemetry/trace/context.h"
+#include "opentelemetry/trace/default_span.h"
 #include "opentelemetry/trace/span_context.h"
 #include "opentelemetry/trace/span_context_kv_iterable_view.h"
 #include "opentelemetry/trace/span_metadata.h"
@@ -298,6 +302,73 @@ static void one_case(const Toks &t, Out &o)
     o.num(root->GetContext().trace_flags().flags());
     root->End();
     span->End();
+    return;
+  }
+  if (t[0].is_tag("SPANCX") && parts.size() == 4 && parts[1].size() >= 2 && parts[1][0].kind == Tok::INT && !parts[2].empty() &&
+      parts[3].size() == 6 && parts[3][1].kind == Tok::INT)
+  {
+    // a context with the is_root_span marker (0 unset, 1 true, 2 set to false) and a span (NONE or a DefaultSpan of <p>)
+    auto make_context = [](opentelemetry::context::Context base, long long marker, const Toks &sp, bool &ok) {
+      if (marker == 1) base = base.SetValue(trace_api::kIsRootSpanKey, true);
+      else if (marker == 2) base = base.SetValue(trace_api::kIsRootSpanKey, false);
+      else if (marker != 0) ok = false;
+      if (sp.size() == 1 && sp[0].is_tag("NONE")) return base;
+      Ctx c = make_ctx(sp);
+      if (!c.ok) { ok = false; return base; }
+      nostd::shared_ptr<trace_api::Span> span(new trace_api::DefaultSpan(c.sc));
+      return trace_api::SetSpan(base, span);      // does not clear the marker: Context values are inherited
+    };
+    trace_api::TraceId gen;
+    Extra x;
+    make_extra(parts[3], 2, x);
+    bool ok = true;
+    auto cur = make_context(opentelemetry::context::Context{}, parts[1][0].as_ll(), Toks(parts[1].begin() + 1, parts[1].end()), ok);
+    // the tracer's sampler: the delegate of the outermost ParentBased (the root sampler) is wrapped in a call counter
+    std::shared_ptr<Counting> counter;
+    std::shared_ptr<sdktrace::Sampler> s;
+    if (parts[0].size() >= 2 && parts[0][0].is_tag("PB"))
+    {
+      auto d = make_sampler(parts[0], 1);
+      if (d) { counter = std::make_shared<Counting>(d); s = std::make_shared<sdktrace::ParentBasedSampler>(counter); }
+    }
+    else s = make_sampler(parts[0]);
+    if (!s || !ok || !make_tid(parts[3][0], gen) || !x.ok) { o.tag("BADCASE"); return; }
+    trace_api::StartSpanOptions opts;
+    opts.kind = x.kind;
+    const Toks &a = parts[2];
+    if (a[0].is_tag("IMPL") && a.size() == 1) {}
+    else if (a[0].is_tag("CUR") && a.size() == 1) opts.parent = cur;
+    else if (a[0].is_tag("SC"))
+    {
+      Ctx c = make_ctx(Toks(a.begin() + 1, a.end()));
+      if (!c.ok) { o.tag("BADCASE"); return; }
+      opts.parent = c.sc;
+    }
+    else if (a[0].is_tag("CX") && a.size() >= 3 && a[1].kind == Tok::INT)
+    {
+      auto cx = make_context(opentelemetry::context::Context{}, a[1].as_ll(), Toks(a.begin() + 2, a.end()), ok);
+      if (!ok) { o.tag("BADCASE"); return; }
+      opts.parent = cx;
+    }
+    else { o.tag("BADCASE"); return; }
+    std::vector<std::unique_ptr<sdktrace::SpanProcessor>> procs;
+    auto tctx = std::make_shared<sdktrace::TracerContext>(
+        std::move(procs), opentelemetry::sdk::resource::Resource::Create({}), std::unique_ptr<sdktrace::Sampler>(new Shared(s)),
+        std::unique_ptr<sdktrace::IdGenerator>(new FixedIdGenerator(gen, parts[3][1].as_ll() != 0)));
+    auto tracer = std::make_shared<sdktrace::Tracer>(tctx);
+    opentelemetry::common::KeyValueIterableView<std::map<std::string, int>> av{x.attrs};
+    trace_api::SpanContextKeyValueIterableView<decltype(x.links)> lv{x.links};
+    {
+      auto token = opentelemetry::context::RuntimeContext::Attach(cur);
+      auto span  = tracer->StartSpan(nostd::string_view(x.name->p, x.name->n), av, lv, opts);
+      auto sc    = span->GetContext();
+      char tb[16];
+      sc.trace_id().CopyBytesTo(nostd::span<uint8_t, 16>(reinterpret_cast<uint8_t *>(tb), 16));
+      o.bytes(tb, 16).num(sc.trace_flags().flags()).bytes(sc.trace_state()->ToHeader()).boolean(span->IsRecording());
+      o.num(counter ? counter->calls : 0);
+      span->End();
+      opentelemetry::context::RuntimeContext::Detach(*token);
+    }
     return;
   }
   o.tag("BADCASE");
